@@ -1476,6 +1476,9 @@ func FunExpr(query *Query, current Map, expr *sqlparser.FuncExpr, opts ...ExprOp
 				err = e
 				return e
 			}
+			// the argument may have launched ASYNC calls: this runs after the
+			// query's own wait, so they are awaited here
+			query.wg.Wait()
 			rs = slice[0]
 			return nil
 		})
